@@ -156,11 +156,12 @@ def replay_dictattr(call):
     tri = lambda v: [True, False] if v is None else [bool(v)]   # noqa
     bad = []
     tried = 0
-    for k0_in, k1_in, k0_first, filler_pos in itertools.product(tri(call.get('K0_in_d')), tri(call.get('K1_in_d')), tri(call.get('K0_before_K1')), (0, 1, 2)):
+    for k0_in, k1_in, k0_first, filler_pos in itertools.product(tri(call.get('K0_in_d')), tri(call.get('K1_in_d')), tri(call.get('K0_before_K1')), (0, 1, 2, None)):
         keys = (['K0'] if k0_in else []) + (['K1'] if k1_in else [])
         if not k0_first:
             keys = keys[::-1]
-        keys.insert(min(filler_pos, len(keys)), 'f')
+        if filler_pos is not None:
+            keys.insert(min(filler_pos, len(keys)), 'f')
         vals = {k: 'v' + k for k in keys}
         sels = []
         if op.endswith('.key'):
